@@ -510,6 +510,18 @@ def check_case(case):
     return run_flat(case)
 
 
+def _budget_exhausted(ctx, t0, n):
+    """a broken tree can make every history slow (leaks, lock waits): stop generating in time
+    and judge what was run"""
+    import time
+
+    limit = 70 if ctx.tier == "quick" else 650
+    if time.time() - t0 > limit:
+        ctx.assumptions.append("time budget reached after %d cases; remaining generated cases not run" % n)
+        return True
+    return False
+
+
 def run(ctx, deep=False):
     ctx.rule = (
         "stream A: histories of insert-row/load/set/flush and merge(load=True|False) of detached or transient sources with every combination of "
@@ -517,8 +529,13 @@ def run(ctx, deep=False):
         "all thorough), compared with the Lean model; stream B: Parent/children graphs with partially loaded attributes and collections, duplicate "
         "identities in one collection, preloaded or not, oracle only; non-trivial = at least one merge executed"
     )
+    import time
+
+    t0 = time.time()
     cases, impl_out, reqs = [], [], []
     for case in gen_cases(ctx, deep):
+        if _budget_exhausted(ctx, t0, len(cases)):
+            break
         line, problems = check_case(case)
         jc = jsonable(case)
         ctx.case(jc, nontrivial=(case["src"] == "graph" or "M" in line))
